@@ -44,7 +44,7 @@ fn garbage_entry() -> BoxedStrategy<Entry> {
 
 pub fn strategy() -> BoxedStrategy<Case> {
     (
-        issue_spec_strategy(ClaimCfg::SHORT_F64, HONEST_PATHS, Just(HolderKey::None).boxed()),
+        issue_spec_strategy(ClaimCfg::FULL, HONEST_PATHS, Just(HolderKey::None).boxed()),
         vec(any::<u16>(), 0..48),
         vec(bogus_entry(), 0..5),
         prop::option::weighted(0.25, vec(garbage_entry(), 1..3)),
